@@ -53,6 +53,10 @@ type Config struct {
 	AfterStart func(s *Sim)
 	// KeepDir: do not delete the data directory (caller does).
 	KeepDir bool
+	// ReuseDir: run on this existing data directory (a restart of the client
+	// on what an earlier run left behind) instead of a copy of a template;
+	// the directory is never removed by Run.
+	ReuseDir string
 	// HardCF: hard-coded filter-header checkpoints of the generated
 	// network (height -> value), installed through the verif-tagged setter
 	// in chainsync for the duration of the run.
@@ -377,13 +381,19 @@ func Run(t *testing.T, cfg Config, setup func(s *Sim), script func(s *Sim)) (res
 			fn = 0
 		}
 	}
-	dir, err := NewDataDir(w, cfg.Prefill, fn)
-	if err != nil {
-		res.Harness = "datadir: " + err.Error()
-		return
-	}
-	if !cfg.KeepDir {
-		defer os.RemoveAll(dir)
+	var dir string
+	if cfg.ReuseDir != "" {
+		dir = cfg.ReuseDir
+	} else {
+		var err error
+		dir, err = NewDataDir(w, cfg.Prefill, fn)
+		if err != nil {
+			res.Harness = "datadir: " + err.Error()
+			return
+		}
+		if !cfg.KeepDir {
+			defer os.RemoveAll(dir)
+		}
 	}
 	s := &Sim{W: w, Cfg: cfg, Dir: dir, lies: map[int]*liePlan{}}
 	for i := 0; i < cfg.NumPeers; i++ {
